@@ -57,10 +57,10 @@ func valueEqual(a, b any) bool {
 
 type c01Obs struct {
 	isNil, isPresent, isValid, isPtr bool
-	unwrapI                         any
-	typ                             reflect.Type
-	kind                            reflect.Kind
-	str                             string
+	unwrapI                          any
+	typ                              reflect.Type
+	kind                             reflect.Kind
+	str                              string
 }
 
 func observe[T any](m fpgo.MaybeDef[T]) c01Obs {
